@@ -14,6 +14,7 @@ import black_it.samplers.base as sbase
 import black_it.schedulers.base as schbase
 import black_it.schedulers.rl.rl_scheduler as rls
 import black_it.search_space as ss
+import black_it.utils.base as ubase
 import black_it.utils.seedable as seedable
 from black_it.loss_functions.base import BaseLoss
 from black_it.samplers.base import BaseSampler
@@ -75,7 +76,7 @@ def world(*, argsort_identity=False, recorder=None, extra_modules=(), extra_name
         names["save_calibrator_state"] = recorder
     rng_patch = patched(seedable, default_rng=sym_default_rng) if rng else contextlib.nullcontext()
     with patched(cal, **names), rng_patch, patched(sbase, np=NPX, print=_noprint), \
-            patched(ss, np=NPX, print=_noprint), patched(rls, np=NPX, float=sym_float, threading=_ThreadingProxy()), \
+            patched(ss, np=NPX, print=_noprint), patched(ubase, np=NPX), patched(rls, np=NPX, float=sym_float, threading=_ThreadingProxy()), \
             patched(*extra_modules, **(extra_names or {})):
         yield
 
